@@ -23,6 +23,9 @@ CONSTANTS
     Canon,          \* the canonical field order of the file: <<"score", "geom1", ..., "class">>
     InitTables,     \* set of admissible initial tables
     Ops,            \* subset of {"swap", "write_motl", "write_emmotl", "load", "adopt", "droprow", "duprows"} enabled
+    PfSet,          \* forms of the file-name argument offered: subset of {"str", "path"} (str / pathlib.Path)
+    TsSet,          \* spellings of the motl_type option of Motl.write_out offered: subset of {"emmotl", "EMMOTL", "EmMotl"}
+    LtSet,          \* motl_type of Motl.load: subset of {"omitted", "emmotl"}
     HdrSet,         \* header arguments offered to the EmMotl write path: subset of {"absent", "none", "empty", "other"}
     SwapPos,        \* column positions offered to SwapCols
     MaxDepth,
@@ -103,12 +106,17 @@ SwapCols(i, j) == /\ "swap" \in Ops
 \* header of another motive-list file, one with hn # N particles (read a list, filter or extend it, write it with the
 \* original header).  The file that is written describes the list that is written: the header argument is immaterial.
 OtherN(n) == IF n = 1 THEN 3 ELSE IF n % 2 = 0 THEN n - 1 ELSE n + 2
-WriteVia(path, h) == /\ path \in Ops
+\* pf is the form of the file-name argument, ts the spelling of the motl_type option (Motl.write_out lower-cases it);
+\* neither enters the outcome.
+WriteVia(path, h, pf, ts) ==
+                     /\ path \in Ops
                      /\ path = "write_motl" => h = "absent"
+                     /\ (path = "write_motl") = (ts # "na")
                      /\ disk' = Encode(tbl)
                      /\ src' = tbl
                      /\ UNCHANGED <<tbl, mem>>
-                     /\ Step([name |-> path, hdr |-> h, hn |-> IF h = "other" THEN OtherN(NRows(tbl)) ELSE 0])
+                     /\ Step([name |-> path, hdr |-> h, hn |-> IF h = "other" THEN OtherN(NRows(tbl)) ELSE 0,
+                              pf |-> pf, ts |-> ts])
 
 \* the number of particles of the list at hand changes (the list is filtered / extended) before it is written
 DropRow(r) == /\ "droprow" \in Ops
@@ -123,11 +131,12 @@ DupRows == /\ "duprows" \in Ops
            /\ Step([name |-> "duprows"])
 
 \* Motl.load(path)
-Load == /\ "load" \in Ops
+Load(pf, lt) ==
+        /\ "load" \in Ops
         /\ IsMotlFile(disk)
         /\ mem' = Decode(disk)
         /\ UNCHANGED <<tbl, disk, src>>
-        /\ Step([name |-> "load"])
+        /\ Step([name |-> "load", pf |-> pf, lt |-> lt])
 
 \* go on working with the list that was loaded
 Adopt == /\ "adopt" \in Ops
@@ -147,11 +156,11 @@ Init == /\ tbl \in InitTables
 
 Next == /\ d < MaxDepth
         /\ \/ \E i, j \in SwapPos : i < j /\ SwapCols(i, j)
-           \/ WriteVia("write_motl", "absent")
-           \/ \E h \in HdrSet : WriteVia("write_emmotl", h)
+           \/ \E pf \in PfSet, ts \in TsSet : WriteVia("write_motl", "absent", pf, ts)
+           \/ \E h \in HdrSet, pf \in PfSet : WriteVia("write_emmotl", h, pf, "na")
            \/ \E r \in 1..NRows(tbl) : DropRow(r)
            \/ DupRows
-           \/ Load
+           \/ \E pf \in PfSet, lt \in LtSet : Load(pf, lt)
            \/ Adopt
 
 Spec == Init /\ [][Next]_vars
@@ -185,6 +194,11 @@ C01_OrderIrrelevantStep == [][op'.name = "swap" => Encode(tbl') = Encode(tbl) /\
 C01_OrderIrrelevant == Encode(tbl) = Encode(Canonical(tbl))
 
 \* both write paths, and every header argument, produce the same document (a function of the table alone)
+\* frame conditions of the calls: writing does not change the list that is written (the caller's table is an argument,
+\* not a result), and a list that was loaded stays what it was whatever is called afterwards, until the next load
+C01_WriteKeepsTable == [][IsWrite(op') => tbl' = tbl]_vars
+C01_ResultsPersist == [][op'.name # "load" => mem' = mem]_vars
+
 C01_PathsAgree == [][IsWrite(op') => disk' = Encode(Canonical(tbl))]_vars
 
 \* writing what was loaded reproduces the file (float32 values are their own rounding)
